@@ -51,6 +51,9 @@ pub struct Dataset {
     /// schema change), so the stored chunks do not all have the same columns
     #[serde(default)]
     pub hetero: u8,
+    /// the data lies before the epoch (negative timestamps), ending seven minutes before it
+    #[serde(default)]
+    pub pre_epoch: bool,
 }
 
 pub const AGES_MIN: [i64; 4] = [2, 95, 5 * 60, 30 * 60];
@@ -64,7 +67,7 @@ impl Dataset {
     }
     /// start of the data (ns), given the wall clock `now`: all rows lie in [start, start + span]
     pub fn start(&self, now: i64) -> i64 {
-        let end = now - AGES_MIN[self.age as usize % AGES_MIN.len()] * MIN;
+        let end = if self.pre_epoch { -7 * MIN } else { now - AGES_MIN[self.age as usize % AGES_MIN.len()] * MIN };
         // align to a minute so that bounds are representable in every literal style
         let end = end - end.rem_euclid(MIN);
         end - self.span_min() * MIN
@@ -186,7 +189,7 @@ pub fn qrow() -> impl Strategy<Value = QRow> {
 
 pub fn dataset(max_rows: usize) -> impl Strategy<Value = Dataset> {
     (0u8..2, 0u8..4, 0u8..6, prop::collection::vec(qrow(), 4..max_rows), any::<bool>(), 0u8..2)
-        .prop_map(|(ts_type, age, span_h, rows, custom_label, backend)| Dataset { ts_type, age, span_h, rows, custom_label, backend, hetero: 0 })
+        .prop_map(|(ts_type, age, span_h, rows, custom_label, backend)| Dataset { ts_type, age, span_h, rows, custom_label, backend, hetero: 0, pre_epoch: false })
 }
 
 /// An object store whose every request takes one scheduler turn (a `yield_now` before it is
